@@ -273,7 +273,8 @@ def r19_2(ctx):
                 p = strip_all(p[2][0])          # ptr.cast::<u8>() for `ptr as *const u8`
             okp = is_call(p, 'as_mut_ptr' if mutable else 'as_ptr') and is_buf_view(p[2][0])
             n = strip_casts(n)
-            if is_call(n, 'size_of_val') and len(n[2]) == 1 and is_buf_view(n[2][0]):
+            sv = ctx.an(b).callee_info(n[3]) if is_call(n, 'size_of_val') else None
+            if is_call(n, 'size_of_val') and len(n[2]) == 1 and is_buf_view(n[2][0]) and sv is not None and sv.get('substs') == ['[u32]']:
                 # the byte size of the very slice: len * size_of::<u32>() by definition
                 n = ('bin', 'Mul', ('call', 'core::slice::<impl [T]>::len', (n[2][0],), 0), ('const', 'usize', '4'))
             if n[0] == 'bin' and n[1] == 'Mul' and is_call(n[2], 'size_of') and not is_call(n[3], 'size_of'):
